@@ -158,3 +158,44 @@ def Eph.setOrder (e : Eph) (k : Int) : Eph := { e with order := k }
 
 /-- `ephem.method = m`: same write-through as the order -/
 def Eph.setMethod (e : Eph) (m : Method) : Eph := { e with method := m }
+
+/-! ## object identity: which replies are new objects, which are the recorded points themselves
+
+Python hands out references.  `EphH` adds to the state of an `Ephem` the identity of every recorded point
+(`ids`, parallel to `pts`) and the allocation counter `next` (every object created so far has an identity
+`< next`).  `interpolate` / `propagate` build a new `StateVector`; `ephem[i]` (and plain iteration, which the
+frame/form setters themselves rely on) hands out the recorded point itself. -/
+
+structure EphH where
+  e : Eph
+  ids : List Nat
+  next : Nat
+
+/-- `Ephem(orbits, method, order)`: the recorded points are the objects `0 … n-1` (in date order) -/
+def EphH.new (pts : List Pt) (method : Option Method) (order : Option Int) : EphH :=
+  { e := Eph.new pts method order, ids := List.range pts.length, next := pts.length }
+
+/-- `Ephem.interpolate(date)` / `Ephem.propagate(date)`: the reply is a newly allocated object -/
+def EphH.interpolate (h : EphH) (date : R) : Except Err (Nat × Pt) × EphH :=
+  match h.e.interpolate date with
+  | (.ok p, e') => (.ok (h.next, p), { h with e := e', next := h.next + 1 })
+  | (.error err, e') => (.error err, { h with e := e' })
+
+/-- `ephem[i]` with an `int` index (Python indexing, negative from the end): the recorded object itself -/
+def EphH.getitem (h : EphH) (i : Int) : Except Err (Nat × Pt) :=
+  let n : Int := h.e.pts.length
+  let j : Int := if i < 0 then i + n else i
+  if j < 0 ∨ j ≥ n then .error .index
+  else match h.ids[j.toNat]?, h.e.pts[j.toNat]? with
+    | some id, some p => .ok (id, p)
+    | _, _ => .error .index
+
+/-- the caller modifies in place (`o.form = …`, `o.frame = …`, `o[:] = …`) the object `oid` it holds: this changes
+the ephemeris iff the object is one of the recorded points — and then the array held by an interpolator that
+exists already is NOT refreshed (only the `Ephem.frame` / `Ephem.form` setters refresh it) -/
+def EphH.mutate (h : EphH) (oid : Nat) (f : Pt → Pt) : EphH :=
+  { h with e := { h.e with pts := List.zipWith (fun id p => if id = oid then f p else p) h.ids h.e.pts } }
+
+def EphH.convert (h : EphH) (conv : Pt → Pt) : EphH := { h with e := h.e.convert conv }
+def EphH.setOrder (h : EphH) (k : Int) : EphH := { h with e := h.e.setOrder k }
+def EphH.setMethod (h : EphH) (m : Method) : EphH := { h with e := h.e.setMethod m }
